@@ -161,6 +161,9 @@ struct Model {
     window: u64,
     stream_window: u64,
     max_window_ever: u64,
+    /// largest value of (consumed + window) at any past moment: the most the endpoint can ever have
+    /// decided to advertise (a limit decided under a larger window may be put on the wire later)
+    entitled_hi: u64,
     dgram_buf: usize,
     dgrams: Vec<usize>,
     closed: Option<Vec<u64>>,
@@ -241,6 +244,7 @@ pub fn run_seq(base: Instant, l: &Lim, vs: bool, seq: &[Op], dump: bool) -> Resu
             window: l.recv_window,
             stream_window: l.stream_window,
             max_window_ever: l.recv_window,
+            entitled_hi: l.recv_window,
             dgram_buf: l.dgram_buf,
             dgrams: vec![],
             closed: None,
@@ -309,7 +313,7 @@ pub fn run_seq(base: Instant, l: &Lim, vs: bool, seq: &[Op], dump: bool) -> Resu
                             let delta = new_high - st.high;
                             if expect_close.is_empty() {
                                 let total_after = m.total_high() + delta;
-                                let entitled = m.adv_max_data.max(m.consumed_total() + m.max_window_ever);
+                                let entitled = m.adv_max_data.max(m.entitled_hi);
                                 if total_after > entitled {
                                     expect_close.push(FLOW);
                                 } else if total_after > m.adv_max_data {
@@ -372,7 +376,7 @@ pub fn run_seq(base: Instant, l: &Lim, vs: bool, seq: &[Op], dump: bool) -> Resu
                                 lenient_flow = true;
                             }
                             let delta = fsize.saturating_sub(st.high);
-                            let entitled = m.adv_max_data.max(m.consumed_total() + m.max_window_ever);
+                            let entitled = m.adv_max_data.max(m.entitled_hi);
                             if expect_close.is_empty() && m.total_high() + delta > entitled {
                                 expect_close.push(FLOW);
                             } else if expect_close.is_empty() && m.total_high() + delta > m.adv_max_data {
@@ -529,6 +533,7 @@ pub fn run_seq(base: Instant, l: &Lim, vs: bool, seq: &[Op], dump: bool) -> Resu
                     m.dgrams.clear();
                 }
             }
+            m.entitled_hi = m.entitled_hi.max(m.consumed_total() + m.window);
             // deliver injected datagrams
             let mut g = 0;
             while p.w.net.iter().any(|f| f.injected) && g < 50 {
@@ -552,7 +557,7 @@ pub fn run_seq(base: Instant, l: &Lim, vs: bool, seq: &[Op], dump: bool) -> Resu
                         for f in frames {
                             match f {
                                 WFrame::MaxData(v) => {
-                                    let bound = m.adv_max_data.max(m.consumed_total() + m.max_window_ever);
+                                    let bound = m.adv_max_data.max(m.entitled_hi);
                                     if v > bound {
                                         viol.push(("max-data-exceeds-consumed-plus-window".into(), format!("step {step} {op:?}: MAX_DATA {v} advertised, application consumed/discarded {} and the window is {}", m.consumed_total(), m.window)));
                                     }
@@ -597,9 +602,10 @@ pub fn run_seq(base: Instant, l: &Lim, vs: bool, seq: &[Op], dump: bool) -> Resu
                 viol.push(("over-limit-frame-accepted".into(), format!("step {step} {op:?}: frame exceeds an advertised limit (expected {expect_close:x?}) but the connection stayed open")));
                 break;
             }
+            m.entitled_hi = m.entitled_hi.max(m.consumed_total() + m.window);
             // buffered bound (probe): bytes accounted as received never exceed what was advertised
             let pr = slot_.conn.verif_probe().streams;
-            let entitled = m.adv_max_data.max(m.consumed_total() + m.max_window_ever);
+            let entitled = m.adv_max_data.max(m.entitled_hi);
             if m.closed.is_none() && pr.data_recvd > entitled {
                 viol.push(("received-beyond-limit".into(), format!("step {step}: data accounted as received {} exceeds both the advertised MAX_DATA {} and consumed + window {}", pr.data_recvd, m.adv_max_data, entitled)));
             }
@@ -628,12 +634,18 @@ pub fn main(args: &Args) -> ! {
     for (li, l) in ls.iter().enumerate() {
         let a = alphabet(l);
         let n = a.len();
+        // with no streams allowed at all most frames close the connection at once: one level less
+        let depth = if l.name == "zero-streams" && !thorough { depth - 1 } else { depth };
         // all sequences of `depth` over the alphabet; local-only sequences are skipped
         let mut idx = vec![0usize; depth];
         loop {
             let seq: Vec<&Op> = idx.iter().map(|i| &a[*i]).collect();
-            let has_frame = seq.iter().any(|o| matches!(o, Op::S(..) | Op::R(..) | Op::D(..) | Op::C(..)));
-            if has_frame {
+            let has_frame = seq.iter().any(|o| matches!(o, Op::S(..) | Op::R(..) | Op::D(..) | Op::C(..) | Op::Whole(..) | Op::DFill));
+            // a sequence that starts with a local operation on nothing (read / stop of a stream that does
+            // not exist yet, recv on an empty datagram queue) is the sequence of its remaining operations,
+            // which is enumerated anyway as the prefix of others
+            let leading_noop = depth > 1 && matches!(seq[0], Op::Read(..) | Op::Stop(..) | Op::RecvDgram);
+            if has_frame && !leading_noop {
                 tasks.push((li, true, idx.clone()));
                 if depth <= 3 && idx[depth - 1] == 0 {
                     // client victim for the depth-1 prefix
